@@ -917,6 +917,10 @@ func main() {
 		}
 	}
 
+	// 8b. requests that complete at the same time, forced schedules, a writer that takes
+	// every Write in pieces (sink.go); random choices from a source of its own
+	sinkSchedules(run, addLog)
+
 	// ---------- the helpers ----------
 	// atoi: boundaries x paddings, then random values of every length
 	addAtoi := func(class string, i int64, pad int) {
